@@ -149,6 +149,13 @@ def write_registry():
         with open(path2, "w") as f:
             f.write(txt2)
         changed = True
+    txt3 = srcgen.generate_range()
+    path3 = os.path.join(LEAN_DIR, "SpecVerif", "Generated", "RangeSrc.lean")
+    old3 = open(path3).read() if os.path.exists(path3) else None
+    if old3 != txt3:
+        with open(path3, "w") as f:
+            f.write(txt3)
+        changed = True
     return changed
 
 
